@@ -55,21 +55,31 @@ def isContainer : Kind → Bool
 /-- rows that `Array.applyBorders` pops (inside `Array.digest`) are not shown -/
 def keepRow (r : Node) : Bool := !(r.kind == .row && rowBorderOnly ((r.ch.filter (·.kind == .cell)).map cellOf))
 
+/- `ctx`: 0 = inside an item, cell, group, environment (blanks and `par` wrappers are dropped);
+   1 = direct children of an array (border-only rows pruned), 2 = direct children of a list or row.
+   In 1 and 2 the children must be the rows / items / cells themselves: a `par` there is shown. -/
 mutual
-def shape : Node → List String
+def shape (ctx : Nat) : Node → List String
   | .mk t ch =>
     match t.kind with
-    | .space | .par => shapes false ch
-    | .begin_ .array ty => (kindStr (.begin_ .array ty) ++ "(") :: (shapes true ch ++ [")"])
-    | k => if isContainer k then (kindStr k ++ "(") :: (shapes false ch ++ [")"]) else [kindStr k]
-def shapes : Bool → List Node → List String
+    | .space => []
+    | .par => if ctx == 0 then shapes 0 ch else "P(" :: (shapes 0 ch ++ [")"])
+    | .begin_ .array ty => (kindStr (.begin_ .array ty) ++ "(") :: (shapes 1 ch ++ [")"])
+    | .begin_ .list ty => (kindStr (.begin_ .list ty) ++ "(") :: (shapes 2 ch ++ [")"])
+    | .row => "row(" :: (shapes 2 ch ++ [")"])
+    | k => if isContainer k then (kindStr k ++ "(") :: (shapes 0 ch ++ [")"]) else [kindStr k]
+def shapes : Nat → List Node → List String
   | _, [] => []
-  | inArr, n :: ns => (if inArr && !keepRow n then [] else shape n) ++ shapes inArr ns
+  | ctx, n :: ns => (if ctx == 1 && !keepRow n then [] else shape ctx n) ++ shapes ctx ns
 end
 
-def shapeStr (ns : List Node) : String := joinSp (shapes false ns)
+def shapeStr (ns : List Node) : String := joinSp (shapes 0 ns)
 
 /-! ### block trees, prefix encoded -/
+
+/-- leading blanks: a word over `s` (space) and `P` (blank line / `\par`) -/
+def lead? (w : String) : Option (List Bool) :=
+  w.toList.mapM fun c => if c == 's' then some false else if c == 'P' then some true else none
 
 mutual
 def pBlock : Nat → List String → Option (Block × List String)
@@ -82,7 +92,7 @@ def pBlock : Nat → List String → Option (Block × List String)
       let (bs, r) ← pBlocks f r; pure (.env ty bs, r)
     else if w.startsWith "I" then
       match (((w.drop 1).toString.dropEnd 1).toString.splitOn ".") with
-      | [ty, nsp] => do let (is, r) ← pItems f r; pure (.list (← ty.toNat?) (← nsp.toNat?) is, r)
+      | [ty, nsp] => do let (is, r) ← pItems f r; pure (.list (← ty.toNat?) (← lead? nsp) is, r)
       | _ => none
     else if w.startsWith "A" then do
       let ty ← ((w.drop 1).toString.dropEnd 1).toString.toNat?
@@ -106,7 +116,7 @@ def pItems : Nat → List String → Option (Items × List String)
       | [t, nsp] => do
         let (b, r) ← pBlocks f r
         let (is, r) ← pItems f r
-        pure (.cons (← t.toNat?) (← nsp.toNat?) b is, r)
+        pure (.cons (← t.toNat?) (← lead? nsp) b is, r)
       | _ => none
     else none
   | _, [] => none
